@@ -515,15 +515,15 @@ func (pd *perBitData) parseSequenceOf(sizeExtensed bool, params fieldParameters,
 	} else if sizeRange == 1 {
 		numElements += uint64(lb)
 	} else {
-		if err := pd.parseAlignBits(); err != nil {
+		var repeat bool
+		numElementsTmp, err := pd.parseLength(sizeRange, &repeat)
+		if err != nil {
 			return sliceContent, err
 		}
-		if pd.byteOffset >= uint64(len(pd.bytes)) {
-			err := fmt.Errorf("per data out of range")
-			return sliceContent, err
+		if repeat {
+			return sliceContent, fmt.Errorf("SEQUENCE OF with a fragmented length is not supported")
 		}
-		numElements = uint64(pd.bytes[pd.byteOffset])
-		pd.byteOffset++
+		numElements = numElementsTmp
 		perTrace(1, perBitLog(8, pd.byteOffset, pd.bitsOffset, numElements))
 	}
 	perTrace(2, fmt.Sprintf("Decoding  \"SEQUENCE OF\" struct %s with len(%d)", sliceType.Elem().Name(), numElements))
